@@ -141,7 +141,7 @@ def run(ctx, pid, props_file, profiles, variants, n_quick, n_thorough, assumptio
         # exact tie of the faithful models of MVP-4/5/6.0 on the same programs, outside the clean domain too
         try:
             from . import modeltie
-            mt_cex, mt_broken, mt_stats = modeltie.tie(ctx, progs, spec, variants, tag='sys-mt', step=6 if ctx.tier == 'quick' else 2)
+            mt_cex, mt_broken, mt_stats = modeltie.tie(ctx, progs, spec, variants, tag='sys-mt', step=6 if ctx.tier == 'quick' else 5)
         except Exception as e:     # the tie must never hide the differential's own result
             mt_cex, mt_broken, mt_stats = [], [], {'error': repr(e)[:300]}
         pre_cov['model_tie'] = mt_stats
